@@ -174,6 +174,13 @@ class Builder:
             arr = np.empty(len(s[1]), dtype=object)
             for i, c in enumerate(s[1]):
                 arr[i] = self(c)
+            if len(s) > 2:      # optional shape: ["NpArray", [items], [2, 3]]
+                shape = s[2]
+                if not isinstance(shape, list) or not all(
+                        isinstance(k, int) and not isinstance(k, bool) and k >= 0
+                        for k in shape) or int(np.prod(shape)) != len(s[1]):
+                    raise HarnessError(f"bad array shape {shape!r}")
+                arr = arr.reshape(tuple(shape))
             return arr
         if tag == "CallWithKwargsDict":
             # same as CallWithKwargs but handing a plain dict to the constructor
@@ -253,6 +260,8 @@ def spec_of(e):
     if isinstance(e, list):
         return ["List", [spec_of(c) for c in e]]
     if isinstance(e, np.ndarray):
+        if e.ndim != 1:
+            return ["NpArray", [spec_of(c) for c in e.flat], list(e.shape)]
         return ["NpArray", [spec_of(c) for c in e.flat]]
     if isinstance(e, Fraction):
         return ["Frac", e.numerator, e.denominator]
